@@ -9,14 +9,14 @@ CHECKS = {
     "C01": {
         "text": "P1 every modelled function x argument shapes as a single component (and under not()) on a file whose data records are all pairs over "
         "a 13-cell alphabet plus ragged and blank records; P2 all ordered pairs (thorough: triples) from a 24-component interaction "
-        "alphabet in both logic modes over files of <=3 records; P3 boolean nests to depth 3 (4); P4 the pairs under 6 scan windows - "
+        "alphabet in both logic modes over files of <=3 records; P3 boolean nests to depth 3 (4); P4 the pairs under 6 scan windows; P5 orderings of 4-6 independent components; and()/or() with 2-5 arguments - "
         "the real collect() against models/refinterp.py, line by line.",
         "design": "3 / C01",
         "note": "trusted: models/refinterp.py (written from docs/ with citations); lines on which the docs are silent are marked unknown by the model and not asserted (counted in the evidence)",
         "technique": "bounded exhaustive enumeration of generated programs x files x modes on the real interpreter against a lock-step reference interpreter",
     },
     "C03": {
-        "text": "All ordered pairs (thorough: triples over a subset) of 29 writer components (assignments, tracking keys, arithmetic on the previous value, "
+        "text": "All ordered pairs (thorough: triples over a subset) of 30 writer components (assignments, tracking keys, arithmetic on the previous value, "
         "tally/sum/subtotal/counter/first/count(value) with names and onmatch, push/pop/peek/peek_size, the four position counters) with a "
         "filter in no/first/last position x files of <=3 records x 3 scan windows: final variables, scan_count, match_count, returned "
         "lines and a per-line print of count_scans/line_number against models/refinterp.py.",
@@ -56,7 +56,7 @@ CHECKS = {
         "text": "Every chain of 2..3 (thorough 4) filters from a 6-filter alphabet with source-mode preceding on every suffix x files x two spooling "
         "methods against a composition model (member i == standalone p_i on member i-1's lines; manifests name the actual input); "
         "every history of 1..3 (4) runs of a two-member group over three files x three methods with a probe csvpath reading "
-        "$g.variables.v[.key] and $h.headers.name; results references used as file names replay the referenced data.csv.",
+        "$g.variables.v[.key] and $h.headers.name; results references used as file names replay the referenced data.csv, also when feeding a source-mode preceding chain; chains under three non-default dialects.",
         "design": "3 / C20",
         "note": "trusted: the composition model (standalone runs on files written from the model's lines); not asserted: a predecessor that collected nothing",
         "technique": "bounded exhaustive enumeration of chains and run histories on the real CsvPaths against a composition model",
@@ -86,7 +86,7 @@ CHECKS = {
         "technique": "bounded exhaustive differential exploration of both schedules (path-major, line-major) and all group orders on the real code",
     },
     "C19": {
-        "text": "22 jobs touching every process-global/on-disk shared thing; each job's reference record is produced by running it first in its own "
+        "text": "26 jobs touching every process-global/on-disk shared thing (incl. append() and count_headers() on one shared CsvPaths instance); each job's reference record is produced by running it first in its own "
         "fresh interpreter; every ordered pair (and triples over a subset; thorough: all triples, 4-sequences) is then run in a long-lived "
         "process and every record compared with its fresh twin; CsvPaths jobs are re-run in a second fresh process that inherits the "
         "first one's cache directory.",
@@ -99,7 +99,7 @@ CHECKS = {
         "every index, two error kinds, 'raise' configured by validation-mode comment or by config policy, files of 2-4 (8) records, all "
         "six run methods; after the exception escapes the archive is checked against the statement (readable files, aborting error with "
         "line number, completed false, earlier members complete per the C09 model, run manifest not complete, stores byte-identical) and "
-        "one further run on the same instance must archive normally into a new directory.",
+        "one further run on the same instance (same method, and a method of the other schedule family) must archive normally into a new directory.",
         "design": "3 / C18",
         "note": "trusted: models/refarchive.py; policies contain 'collect'; known finding KF-C18-1 (abort on the file's final record says completed true)",
         "technique": "exhaustive fault-position enumeration (every abort point x run method) on the real run methods with archive invariants and a follow-up run",
@@ -114,8 +114,8 @@ CHECKS = {
         "technique": "bounded exhaustive enumeration of groups x files x run methods on the real archive writer against a reference archive model",
     },
     "C10": {
-        "text": "Explicit-state breadth-first search over run histories: {2 groups} x {new instance, reused instance} x {run method} x {same second, "
-        "next instant, skip} over a ladder of virtual instants crossing 12:59:59->13:00:00 and midnight; depth 3 (thorough 4, plus all six "
+        "text": "Explicit-state breadth-first search over run histories: {g1, g2, g1 addressed as g1#two} x {new instance, reused instance} x {run method} x {same second, "
+        "next instant, skip} over a ladder of virtual instants crossing 12:59:59->13:00:00 and midnight; depth 3 plus all same-second chains of 4-5 runs (thorough 4, plus all six "
         "run methods to depth 2). After every run: exactly one new run directory under the run's own group, all earlier runs "
         "byte-identical, names sort chronologically, :last/:first resolve to the extreme run for three prefix kinds.",
         "design": "3 / C10",
@@ -132,7 +132,7 @@ CHECKS = {
         "technique": "explicit-state BFS over operation histories replayed on the real store against an abstract model, invariants on every transition",
     },
     "C12": {
-        "text": "Every ordered list of 1..3 (thorough 4) distinct texts from a 9-text alphabet round-tripped through add/get/#id/$ref/:from/:to, and "
+        "text": "Every ordered list of 1..3 (thorough 4) distinct texts from an 11-text alphabet round-tripped through add/get/#id/$ref/:from/:to, and "
         "every operation sequence of length <=3 (thorough 5) over {add 5 lists x 2 names, remove, new instance} with all lookups and "
         "manifest growth/fingerprint checked after every step, on the real PathsManager against models/refstore.Paths.",
         "design": "3 / C12",
@@ -149,7 +149,7 @@ CHECKS = {
         "technique": "bounded exhaustive enumeration of programs x files x scan windows on the real interpreter against a lock-step reference interpreter",
     },
     "C07": {
-        "text": "For every generated csvpath (control programs, singles and ordered pairs of 20 writer/print/fail/skip components, both return modes) "
+        "text": "For every generated csvpath (control programs, singles and ordered pairs of 20 writer/print/fail/skip components, both return modes and unmatched-mode keep) "
         "x every file of <=3 (4) records x scan windows: collect(), next() and fast_forward() on fresh instances must leave identical "
         "observation records, and for every n in 1..matches+1 collect(nexts=n) must equal a next() generator advanced n yields.",
         "design": "3 / C07",
